@@ -367,3 +367,383 @@ Fixpoint to_clauses_p (t : cf) : option (list (list Z) * core * core) :=
       end
   | CBot _ => None
   end.
+
+(* ------------------------------------------------------------------------------------------ *)
+(** * proof reconstruction and the final glue of prove_tautology (conclusions only)
+
+    Three proof-producing helpers are NOT modelled (they rest on ac_move_to_front); the model takes their
+    conclusions from a record [pieces]; the theorems of Taut/Glue.v assume that the pieces conclude what
+    the code advertises (hypotheses H_simplify / H_merge / H_trivial, each checked at run time by the
+    runner command QP). *)
+
+Record pieces : Type := {
+  simplify_pf : list Z -> Z -> core;        (* conclusion of simplify_clause(cl, x)[1] *)
+  merge_pf : list Z -> list Z -> core;      (* conclusion of merge_clauses(pattern of l, len(l), pattern of r) *)
+  trivial_pf : list Z -> core               (* conclusion of prove_trivial_clause(cl) *)
+}.
+
+Definition k_equiv (a b : core) : core := k_and (KImp a b) (KImp b a).
+
+(** what the three helpers advertise *)
+Definition spec_pieces : pieces := {|
+  simplify_pf := fun cl x => k_equiv (clause_core cl) (clause_core (simplify_clause cl x));
+  merge_pf := fun l r => k_equiv (k_or (clause_core l) (clause_core r)) (clause_core (l ++ r));
+  trivial_pf := fun cl => clause_core cl
+|}.
+
+Definition s_and_l (pq : core) : option core := let? (p, q) := dest_and pq in Some p.      (* p/\q |- p *)
+Definition s_mp (pq p : core) : option core :=                                              (* modus_ponens *)
+  match pq with KImp a b => if core_eqb a p then Some b else None | _ => None end.
+Definition s_dneg_elim (p : core) : core := KImp (nn p) p.
+Definition s_resolution (p a b : core) : core := KImp (k_or (k_neg p) a) (KImp (k_or p b) (k_or a b)).
+Definition s_resolution_r (p b : core) : core := KImp (k_neg p) (KImp (k_or p b) b).
+Definition s_resolution_l (p a : core) : core := KImp (k_or (k_neg p) a) (KImp p a).
+Definition s_resolution_base (p : core) : core := KImp (k_neg p) (KImp p KBot).
+Definition s_resolution_step (ab ac bcd : core) : option core :=     (* a->b, a->c, b->c->d |- a->d *)
+  match ab, ac, bcd with
+  | KImp a b, KImp a2 c, KImp b2 (KImp c2 d) =>
+      if core_eqb a a2 && core_eqb b b2 && core_eqb c c2 then Some (KImp a d) else None
+  | _, _, _ => None
+  end.
+Definition s_long_imp_trans (abc cd : core) : option core :=         (* a->b->c, c->d |- a->b->d *)
+  match abc, cd with
+  | KImp a (KImp b c), KImp c2 d => if core_eqb c c2 then Some (KImp a (KImp b d)) else None
+  | _, _ => None
+  end.
+
+(** conjunction_implies_nth(term, n, l) *)
+Fixpoint s_conj_nth (term : core) (n l : nat) : option core :=
+  match l with
+  | O => None
+  | S O => match n with O => Some (s_imp_refl term) | _ => None end
+  | S l' =>
+      let? (head, rest) := dest_and term in
+      match n with
+      | O => Some (KImp (k_and head rest) head)
+      | S n' => let? rec := s_conj_nth rest n' l' in s_imp_transitivity (KImp (k_and head rest) rest) rec
+      end
+  end.
+
+(** build_proof_from_hint: clause and conclusion of the proof *)
+Fixpoint build_term_p (P : pieces) (fuel : nat) (h : hint) (cl : list Z) (terms : list (list Z))
+  : res (list Z * core) :=
+  match fuel with
+  | O => Fuel
+  | S fuel =>
+      match hint_get cl h with
+      | None => Err
+      | Some (HIdx i) =>
+          match nth_error terms (N.to_nat i) with
+          | None => Err
+          | Some t =>
+              do? pf <- of_option (s_conj_nth (cls_core terms) (N.to_nat i) (length terms));
+              Ok (t, pf)
+          end
+      | Some (HRes ls rs x) =>
+          do? (tl, pl) <- build_term_p P fuel h ls terms;
+          do? (tr, pr) <- build_term_p P fuel h rs terms;
+          if (x =? 0)%Z then Err else
+          let rt := lit_core x in
+          match simplify_clause tl (- x), simplify_clause tr x with
+          | a :: tl', b :: tr' =>
+              if ((a =? - x) && (b =? x))%Z then
+                let final := tl' ++ tr' in
+                if clause_eqb (mkset final) cl then
+                  do? sl <- of_option (s_and_l (simplify_pf P tl (- x)));
+                  do? pl' <- of_option (s_imp_transitivity pl sl);
+                  do? sr <- of_option (s_and_l (simplify_pf P tr x));
+                  do? pr' <- of_option (s_imp_transitivity pr sr);
+                  do? pf <- of_option
+                    (match tl', tr' with
+                     | [], [] => Some (s_resolution_base rt)
+                     | [], _ => Some (s_resolution_r rt (clause_core tr'))
+                     | _, [] => Some (s_resolution_l rt (clause_core tl'))
+                     | _, _ =>
+                         let? m := s_and_l (merge_pf P tl' tr') in
+                         s_long_imp_trans (s_resolution rt (clause_core tl') (clause_core tr')) m
+                     end);
+                  do? pf' <- of_option (s_resolution_step pl' pr' pf);
+                  Ok (final, pf')
+                else Err
+              else Err
+          | _, _ => Err
+          end
+      end
+  end.
+
+(** start_resolution_algorithm: verdict and conclusion of the returned proof *)
+Definition start_resolution_p (P : pieces) (no_shadow : bool) (fuel : nat) (clauses : list (list Z))
+  : res (option (bool * core)) :=
+  match clauses with
+  | [] => Ok (Some (true, s_top_intro))
+  | _ =>
+      let h0 := init_hint (map mkset clauses) 0%N [] in
+      match h0 with
+      | [] =>
+          match clauses with
+          | [c] => Ok (Some (true, trivial_pf P c))
+          | _ => Ok (Some (true, fold1 k_and (map (trivial_pf P) clauses)))     (* and_intro chain *)
+          end
+      | _ =>
+          do? x <- resolution_algorithm no_shadow fuel h0 (map fst h0);
+          match x with
+          | (true, _, h) =>
+              do? (t, pf) <- build_term_p P (S (length h)) h [] clauses;
+              match t with [] => Ok (Some (false, pf)) | _ => Err end
+          | (false, _, _) => Ok None
+          end
+      end
+  end.
+
+(** prove_tautology: verdict and conclusion of the returned proof *)
+Definition prove_tautology_p (P : pieces) (no_shadow : bool) (fuel : nat) (f : form)
+  : res (option (bool * core)) :=
+  let p := expand f in
+  match tcfp (k_neg p) with
+  | None => Err
+  | Some (c, l, r) =>
+      match c with
+      | CBot true => Ok (Some (false, l))
+      | CBot false => do? pf <- of_option (s_mp (s_dneg_elim p) l); Ok (Some (true, pf))
+      | _ =>
+          match r, pnp false c with
+          | Some r0, Some (n, n1, n2) =>
+              do? (k, c1, c2) <- to_cnf_p fuel n;
+              match to_clauses_p k with
+              | None => Err
+              | Some (cls, l1, l2) =>
+                  do? x <- start_resolution_p P no_shadow fuel cls;
+                  match x with
+                  | None => Ok None
+                  | Some (true, pf) =>
+                      do? chain <- of_option
+                        (let? a := s_imp_transitivity n2 r0 in
+                         let? b := s_imp_transitivity c2 a in s_imp_transitivity l2 b);
+                      do? fin <- of_option (s_mp chain pf);
+                      Ok (Some (false, fin))
+                  | Some (false, pf) =>
+                      do? chain <- of_option
+                        (let? a := s_imp_transitivity l1 pf in
+                         let? b := s_imp_transitivity c1 a in
+                         let? c' := s_imp_transitivity n1 b in s_imp_transitivity l c');
+                      do? fin <- of_option (s_mp (s_dneg_elim p) chain);
+                      Ok (Some (true, fin))
+                  end
+              end
+          | _, _ => Err
+          end
+      end
+  end.
+
+(* ------------------------------------------------------------------------------------------ *)
+(** * merge_clauses (modelled; discharges H_merge) *)
+
+Definition s_equiv_refl (p : core) : core := k_equiv p p.
+Definition s_or_assoc (a b c : core) : core := k_equiv (k_or a (k_or b c)) (k_or (k_or a b) c).
+Definition dest_equiv (k : core) : option (core * core) :=
+  let? (pq, qp) := dest_and k in
+  match pq, qp with
+  | KImp p q, KImp q' p' => if core_eqb p p' && core_eqb q q' then Some (p, q) else None
+  | _, _ => None
+  end.
+Definition s_equiv_sym (pf : core) : option core :=                       (* p<->q |- q<->p *)
+  let? (p, q) := dest_equiv pf in Some (k_equiv q p).
+Definition s_equiv_transitivity (pq qr : core) : option core :=           (* p<->q, q<->r |- p<->r *)
+  let? (p, q) := dest_equiv pq in
+  let? (q', r) := dest_equiv qr in
+  if core_eqb q q' then Some (k_equiv p r) else None.
+Definition s_or_cong (pf1 pf2 : core) : option core :=                    (* a<->b, c<->d |- a\/c <-> b\/d *)
+  let? (a, b) := dest_equiv pf1 in
+  let? (c, d) := dest_equiv pf2 in
+  Some (k_equiv (k_or a c) (k_or b d)).
+
+Fixpoint s_merge (term_l : core) (len_l : nat) (term_r : core) : option core :=
+  match len_l with
+  | O => None
+  | S O => Some (s_equiv_refl (k_or term_l term_r))
+  | S len' =>
+      let? (l1, l2) := dest_or term_l in
+      match len' with
+      | S O => s_equiv_sym (s_or_assoc l1 l2 term_r)
+      | _ =>
+          let? a := s_equiv_sym (s_or_assoc l1 l2 term_r) in
+          let? m := s_merge l2 len' term_r in
+          let? c := s_or_cong (s_equiv_refl l1) m in
+          s_equiv_transitivity a c
+      end
+  end.
+
+(** helper conclusions with merge_clauses modelled, the other two still abstract *)
+Definition pieces_merge (simp : list Z -> Z -> core) (triv : list Z -> core) : pieces := {|
+  simplify_pf := simp;
+  merge_pf := fun l r => match s_merge (clause_core l) (length l) (clause_core r) with Some c => c | None => KBot end;
+  trivial_pf := triv
+|}.
+
+(* ------------------------------------------------------------------------------------------ *)
+(** * ac_move_to_front specialised to \/ (or_move_to_front): the recursion `unroll` *)
+
+Definition s_or_comm (p q : core) : core := k_equiv (k_or p q) (k_or q p).
+
+(** [unroll term_l term_r positions l unrolling], one unit of fuel per call.
+    assoc = or_assoc, assoc_rev = equiv_sym . or_assoc, comm = or_comm, cong = or_cong,
+    extract_op = _or.assert_matches *)
+Fixpoint unroll (fuel : nat) (tl tr : core) (ps : list nat) (l u : nat) : option core :=
+  match fuel with
+  | O => None
+  | S fuel =>
+      match ps with
+      | [] => Some (s_equiv_refl (k_or tl tr))
+      | pos :: ps' =>
+          if negb (S u <? l)%nat || negb (pos <? l)%nat then None else       (* the two asserts *)
+          if (pos <=? u)%nat then
+            if (u =? 0)%nat then
+              if (l =? 2)%nat then Some (s_equiv_refl (k_or tl tr))
+              else
+                let? (mid, tr') := dest_or tr in
+                let? rec := unroll fuel mid tr' ps' (l - 1) 0 in
+                s_or_cong (s_equiv_refl tl) rec
+            else
+              let? (tl', mid) := dest_or tl in
+              if (pos =? u)%nat then
+                let? pf := s_or_cong (s_or_comm tl' mid) (s_equiv_refl tr) in
+                let? a := s_equiv_sym (s_or_assoc mid tl' tr) in
+                let? pf' := s_equiv_transitivity pf a in
+                let? rec := unroll fuel tl' tr ps' (l - 1) (u - 1) in
+                let? c := s_or_cong (s_equiv_refl mid) rec in
+                s_equiv_transitivity pf' c
+              else
+                let? rec := unroll fuel tl' (k_or mid tr) ps l (u - 1) in
+                let? a := s_equiv_sym (s_or_assoc tl' mid tr) in
+                s_equiv_transitivity a rec
+          else
+            if (l =? 2)%nat then Some (s_or_comm tl tr)
+            else if (u =? l - 2)%nat then
+              let? (tl', mid) := dest_or tl in
+              let? rec := unroll fuel tl' mid ps' (l - 1) (l - 3) in
+              let? c := s_or_cong (s_equiv_refl tr) rec in
+              s_equiv_transitivity (s_or_comm tl tr) c
+            else
+              let? (mid, tr') := dest_or tr in
+              let? rec := unroll fuel (k_or tl mid) tr' ps l (S u) in
+              s_equiv_transitivity (s_or_assoc tl mid tr') rec
+      end
+  end.
+
+(** sorted_pos[i] -= i ; sorted_pos.append(0)   (positions are passed sorted by both callers) *)
+Fixpoint adjust_from (k : nat) (ps : list nat) : list nat :=
+  match ps with [] => [0%nat] | p :: t => (p - k)%nat :: adjust_from (S k) t end.
+
+Definition or_move_to_front (ps : list nat) (terms : list core) : option core :=
+  match terms with
+  | [] => None
+  | [t] => Some (s_equiv_refl t)
+  | t0 :: rest =>
+      unroll (S ((S (length ps)) * (S (length terms)) + length terms)) t0 (fold1 k_or rest)
+             (adjust_from 0 ps) (length terms) 0
+  end.
+
+(* ------------------------------------------------------------------------------------------ *)
+(** * reduce_n_or_duplicates_at_front, simplify_clause (proof), prove_trivial_clause *)
+
+Definition s_or_idem (p : core) : core := k_equiv (k_or p p) p.
+Definition s_reduce_dup (p q : core) : core := k_equiv (k_or p (k_or p q)) (k_or p q).
+
+(** the `for _ in range(n - 1)` loop *)
+Fixpoint reduce_loop (k : nat) (p q pf : core) : option core :=
+  match k with
+  | O => Some pf
+  | S k' => let? pf' := s_equiv_transitivity (s_reduce_dup p q) pf in reduce_loop k' p (k_or p q) pf'
+  end.
+
+Definition s_reduce_n (n : nat) (terms : list core) : option core :=
+  if negb (n <? length terms)%nat then None else
+  if (n =? 0)%nat then Some (s_equiv_refl (fold1 k_or terms)) else
+  match terms with
+  | [] => None
+  | p :: _ =>
+      if (length terms =? S n)%nat then reduce_loop (n - 1) p p (s_or_idem p)
+      else
+        let q0 := fold1 k_or (skipn (S n) terms) in
+        reduce_loop (n - 1) p (k_or p q0) (s_reduce_dup p q0)
+  end.
+
+(** positions of [x] in [cl], counted from [i] *)
+Fixpoint positions_from (i : nat) (cl : list Z) (x : Z) : list nat :=
+  match cl with
+  | [] => []
+  | y :: t => if (y =? x)%Z then i :: positions_from (S i) t x else positions_from (S i) t x
+  end.
+
+(** id_to_metavar asserts id != 0 *)
+Definition lits_ok (cl : list Z) : bool := forallb (fun y => negb (y =? 0)%Z) cl.
+
+(** simplify_clause(cl, x)[1] *)
+Definition s_simplify (cl : list Z) (x : Z) : option core :=
+  let ps := positions_from 0 cl x in
+  match ps with
+  | [] => Some (s_equiv_refl (clause_core cl))
+  | _ =>
+      if negb (lits_ok cl) then None else
+      let n := length ps in
+      let stripped := filter (fun y => negb (y =? x)%Z) cl in
+      let? pf := or_move_to_front ps (map lit_core cl) in
+      let? r := s_reduce_n (n - 1) (map lit_core (repeat x n ++ stripped)) in
+      s_equiv_transitivity pf r
+  end.
+
+(** first pair of positions (i1 < i2, lexicographic order of itertools.combinations) with cl[i1] + cl[i2] == 0 *)
+Fixpoint find_opp (x : Z) (i : nat) (t : list Z) : option nat :=
+  match t with
+  | [] => None
+  | y :: t' => if (x + y =? 0)%Z then Some i else find_opp x (S i) t'
+  end.
+Fixpoint find_pair (i : nat) (cl : list Z) : option (nat * nat * Z * Z) :=
+  match cl with
+  | [] => None
+  | x :: t =>
+      match find_opp x (S i) t with
+      | Some i2 => Some (i, i2, x, (- x)%Z)
+      | None => find_pair (S i) t
+      end
+  end.
+
+Definition s_and_r (pq : core) : option core := let? (p, q) := dest_and pq in Some q.      (* p/\q |- q *)
+Definition s_or_assoc_r3 (a b c : core) : core := KImp (k_or (k_or a b) c) (k_or a (k_or b c)).
+Definition s_or_l (p q : core) : core := k_or p q.                                          (* p |- p\/q *)
+
+Fixpoint remove_idx (i : nat) (l : list Z) : list Z :=
+  match l with
+  | [] => []
+  | y :: t => match i with O => t | S i' => y :: remove_idx i' t end
+  end.
+
+(** prove_trivial_clause(cl) *)
+Definition s_trivial (cl : list Z) : option core :=
+  match find_pair 0 cl with
+  | None => None                                   (* UnboundLocalError *)
+  | Some (i1, i2, x1, x2) =>
+      if negb (lits_ok cl) then None else
+      let neg_first := (x1 <? x2)%Z in
+      let p := lit_core (Z.abs x1) in
+      match cl with
+      | [_; _] => if neg_first then Some (s_dneg_elim p) else Some (s_imp_refl (k_neg p))
+      | _ =>
+          let? mv := or_move_to_front [i1; i2] (map lit_core cl) in
+          let? pf := s_and_r mv in
+          let rest := clause_core (remove_idx i1 (remove_idx i2 cl)) in
+          if neg_first then
+            let? pf' := s_imp_transitivity (s_or_assoc_r3 (k_neg p) p rest) pf in
+            s_mp pf' (s_or_l (s_dneg_elim p) rest)
+          else
+            let? pf' := s_imp_transitivity (s_or_assoc_r3 p (k_neg p) rest) pf in
+            s_mp pf' (s_or_l (s_imp_refl (k_neg p)) rest)
+      end
+  end.
+
+(** all helper conclusions computed by the model *)
+Definition model_pieces : pieces := {|
+  simplify_pf := fun cl x => match s_simplify cl x with Some c => c | None => KBot end;
+  merge_pf := fun l r => match s_merge (clause_core l) (length l) (clause_core r) with Some c => c | None => KBot end;
+  trivial_pf := fun cl => match s_trivial cl with Some c => c | None => KBot end
+|}.
